@@ -30,6 +30,11 @@ Known classes (recorded defects, see DESIGN.md section 7 / known_findings.json):
   C13-tryfrom-datetime-table   toml::value::ValueSerializer::serialize_struct ignores the date-time tunnel name:
         Value::try_from / Table::try_from of a value containing a date-time yields a Table with the private key
         `$__toml_private_datetime`.  Classifier: `tryfrom` comparison, the value contains a date-time.
+  C13-valueser-root-tuple-variant   toml::ser::ValueSerializer::serialize_tuple_variant (crates/toml/src/ser.rs) is
+        `self.serialize_seq(Some(len))`: a tuple variant AT THE ROOT of the single-value serializer is written as a bare
+        array, its variant name silently dropped (`E::T(1, 2)` -> `[1, 2]`), and no value deserializer reads that text
+        back as E.  (toml's document Serializer does the same but then refuses the array as a non-table root; toml_edit's
+        ValueSerializer writes `{ T = [1, 2] }`.)  Classifier: routes_ser, the root value is a tuple variant, single-value routes.
   C07-tryfrom-nested-none-dropped   (see lib/props/c07.py) shows here as try_from = Ok where to_string = Err(unsupported-none).
   private-datetime-key (F14)   the case spells one of the private in-band names.
 """
@@ -98,6 +103,11 @@ def tree_has_datetime(n):
     if n[0] == "t":
         return any(tree_has_datetime(x) for _, x in n[1])
     return False
+
+
+def root_tuple_variant(ty, v):
+    """classifier of the known class C13-valueser-root-tuple-variant: the ROOT value itself is a tuple variant"""
+    return ty[0] == "E" and v[0] == "E" and ty[2][v[1]][1] == "t"
 
 
 def dt_or_value_leaf(ty):
@@ -188,13 +198,27 @@ def mutate_type(rng, g, ty):
     return ty, "same-type"
 
 
+_TV_TAG = {"s": "S", "i": "I", "f": "D", "b": "B", "d": "X"}
+
+
+def tree_tv(n):
+    """gen_serde.to_tree node -> the toml-value form gen_serde.tv_str prints"""
+    if n[0] == "a":
+        return ("L", [tree_tv(x) for x in n[1]])
+    if n[0] == "t":
+        return ("T", [(k, tree_tv(x)) for k, x in n[1]])
+    return (_TV_TAG[n[0]], n[1])
+
+
 def routes_case(ty, tree, kind, rng, v=None):
     doc = G.render_doc(rng, tree) if tree[0] == "t" else ""
     val = G.render_inline(rng, tree)
     meta = {"kind": kind, "ty": ty, "depth": G.ty_depth(ty), "has_dt": tree_has_datetime(tree), "root_table": tree[0] == "t"}
     if v is not None:
         meta["v"] = v
-    return Case("routes", [G.ty_str(ty).encode(), doc.encode("utf-8"), val.encode("utf-8")], meta)
+    # fourth argument: the tree both texts were rendered from — ignored by the harness (which reads the texts),
+    # read by the Coq model (which works on the level of the value tree)
+    return Case("routes", [G.ty_str(ty).encode(), doc.encode("utf-8"), val.encode("utf-8"), G.tv_str(tree_tv(tree)).encode()], meta)
 
 
 def vcase(cmd, ty, v, kind):
@@ -297,49 +321,71 @@ def judge(case, line):
                 x = f.get(side, "")
                 if x.startswith("err("):
                     kind = x[4:-1]
-                    allowed = G.unsupported_kinds(ty, v, "tp") if side == "doc" else (G.unsupported_kinds(ty, v, "ep") - {"root-not-table"})
+                    # both of toml's serializers look at the root value itself (a struct variant there is refused by
+                    # name); the single-value one does not ask for a table
+                    allowed = G.unsupported_kinds(ty, v, "tp") if side == "doc" else (G.unsupported_kinds(ty, v, "tp") - {"root-not-table"})
                     STATS["noser:" + kind] += 1
                     if kind not in allowed:
                         out.append(("serializing (%s) fails with %s, outside the documented unsupported shapes %s" % (side, kind, sorted(allowed)),
                                     "private-datetime-key" if private else None))
-        routes = []
-        if f.get("valid") in ("0", "1"):
-            routes += DOC_ROUTES
-        routes += [r for r in VAL_ROUTES if r in f]
-        first_dump = None
-        for r in routes:
+        # the harness prints `ok:=` for a dump byte-identical to its reference (the input value for routes_ser, else the
+        # first dump of the line): resolve it first
+        href = G.val_str(v) if (case.cmd == "routes_ser") else None
+        dumps = {}
+        for r in DOC_ROUTES + VAL_ROUTES:
             x = f.get(r)
-            if x is None:
-                out.append(("route %s missing" % r, None))
+            if x is None or not x.startswith("ok:"):
                 continue
-            cls = "private-datetime-key" if private else (dt_class if r in VALUE_FAMILY else None)
-            if x == "err":
-                STATS["err:" + r] += 1
-                if must_all_succeed:
-                    out.append(("route %s fails on the text obtained by serializing a value of the target type" % r, cls))
-                continue
-            STATS["ok:" + r] += 1
-            d = x[3:]
-            if d == "=":
-                if reference is None:
+            if x[3:] == "=":
+                if href is None:
                     out.append(("harness protocol: '=' before any dump", None))
-                continue
-            if first_dump is not None and d == first_dump[1]:
-                continue
-            got = G.parse_val(d)
-            if reference is None:
-                reference = (r, got)
-                first_dump = (r, d)
-                if v is not None and not G.sval_eq(v, got):
-                    out.append(("route %s decodes the rendered document to a value different from the one it was rendered from: %s" % (r, d[:300]), cls))
-                continue
-            if not G.sval_eq(reference[1], got):
-                # the class is decided by which family the two disagreeing routes belong to
-                c2 = cls or ("private-datetime-key" if private else (dt_class if (reference[0] in VALUE_FAMILY) else None))
-                if reference[0] == "in":
-                    out.append(("route %s returns a value different from the serialized one: %s" % (r, d[:300]), c2))
-                else:
-                    out.append(("routes %s and %s both succeed with different values: %s" % (reference[0], r, d[:300]), c2))
+                    continue
+                dumps[r] = href
+            else:
+                dumps[r] = x[3:]
+                if href is None:
+                    href = x[3:]
+        doc_routes = DOC_ROUTES if f.get("valid") in ("0", "1") else []
+        val_routes = [r for r in VAL_ROUTES if r in f]
+        if case.cmd == "routes" and not case.meta.get("root_table"):
+            # the document text is the EMPTY document here (only a table can be rendered as a document): the two
+            # texts denote different trees, so the two groups of routes are judged separately, and only the
+            # single-value text was rendered from v
+            groups = [(doc_routes, None), (val_routes, v)]
+        else:
+            groups = [(doc_routes + val_routes, v)]
+        tuple_variant_root = case.cmd == "routes_ser" and root_tuple_variant(ty, v)
+        for routes, gv in groups:
+            reference = ("in", gv) if (case.cmd == "routes_ser") else None
+            for r in routes:
+                x = f.get(r)
+                if x is None:
+                    out.append(("route %s missing" % r, None))
+                    continue
+                cls = "private-datetime-key" if private else (dt_class if r in VALUE_FAMILY else None)
+                if cls is None and tuple_variant_root and r in VAL_ROUTES:
+                    cls = "C13-valueser-root-tuple-variant"
+                if x == "err":
+                    STATS["err:" + r] += 1
+                    if must_all_succeed:
+                        out.append(("route %s fails on the text obtained by serializing a value of the target type" % r, cls))
+                    continue
+                STATS["ok:" + r] += 1
+                if r not in dumps:
+                    continue
+                got = G.parse_val(dumps[r])
+                if reference is None:
+                    reference = (r, got)
+                    if gv is not None and not G.sval_eq(gv, got):
+                        out.append(("route %s decodes the rendered text to a value different from the one it was rendered from: %s" % (r, dumps[r][:300]), cls))
+                    continue
+                if not G.sval_eq(reference[1], got):
+                    # the class is decided by which family the two disagreeing routes belong to
+                    c2 = cls or ("private-datetime-key" if private else (dt_class if (reference[0] in VALUE_FAMILY) else None))
+                    if reference[0] == "in":
+                        out.append(("route %s returns a value different from the serialized one: %s" % (r, dumps[r][:300]), c2))
+                    else:
+                        out.append(("routes %s and %s both succeed with different values: %s" % (reference[0], r, dumps[r][:300]), c2))
         return out
     if case.cmd == "tryfrom":
         v = case.meta["v"]
@@ -399,19 +445,91 @@ def nontrivial(case, line):
     return case.cmd != "fidelity" and case.meta.get("depth", 0) >= 2
 
 
+def tv_eq_ordered(a, b):
+    """toml::Value trees with the same key order; NaN == NaN"""
+    if a[0] != b[0]:
+        return False
+    k = a[0]
+    if k == "D":
+        return G.f64_eq(a[1], b[1])
+    if k == "L":
+        return len(a[1]) == len(b[1]) and all(tv_eq_ordered(x, y) for x, y in zip(a[1], b[1]))
+    if k == "T":
+        return len(a[1]) == len(b[1]) and all(ka == kb and tv_eq_ordered(x, y) for (ka, x), (kb, y) in zip(a[1], b[1]))
+    return a[1] == b[1]
+
+
 def compare(case, model_line, impl_line):
+    """correspondence with the Coq model (coq/Model/SerdeRoutes.v over Ser.v / De.v, through coq/Extract/Cmd_serde.v),
+    on the level of the value tree: per route the same outcome (error / value equal up to NaN and map order), per
+    serialization the same error kind, per try_from the same tree.  `*` / `ok:*` / `-`: not answered by the model
+    (texts are not modelled; a deserializer path outside the model)."""
     if model_line is None or model_line == "-":
         return None
+    if impl_line.startswith("BADCASE") or model_line.startswith("BADCASE"):
+        return None if impl_line.startswith("BADCASE") and model_line.startswith("BADCASE") else "model %s, implementation %s" % (model_line[:60], impl_line[:60])
     m, i = fields(model_line), fields(impl_line)
-    for k, x in m.items():
-        if x == "*" or k not in i:
-            continue
-        y = i[k]
-        if x == y:
-            continue
-        if x.startswith("ok") and y.startswith("ok") and (x == "ok:*" or y[3:] == "="):
-            continue
-        return "%s: model %s, implementation %s" % (k, x[:200], y[:200])
+    if case.cmd in ("routes", "routes_ser"):
+        # resolve the implementation's `ok:=` (same dump as the reference: the input value / the first dump printed)
+        ref = case.meta.get("v") if case.cmd == "routes_ser" else None
+        ival = {}
+        for k, y in i.items():
+            if k in DOC_ROUTES or k in VAL_ROUTES:
+                if y == "err":
+                    ival[k] = None
+                elif y == "ok:=":
+                    ival[k] = ("ok", ref)
+                elif y.startswith("ok:"):
+                    got = G.parse_val(y[3:])
+                    if ref is None:
+                        ref = got
+                    ival[k] = ("ok", got)
+        for k, x in m.items():
+            if x == "*" or x == "ok:*":
+                if k in ("doc", "val") and k in i and not i[k].startswith("ok:"):
+                    return "%s: model ok, implementation %s" % (k, i[k][:100])
+                continue
+            if k in ("doc", "val"):
+                if i.get(k) != x:
+                    return "%s: model %s, implementation %s" % (k, x[:100], i.get(k, "missing")[:100])
+                continue
+            if k == "valid":
+                if x != i.get(k):
+                    return "valid: model %s, implementation %s" % (x, i.get(k))
+                continue
+            if k not in ival:
+                return "route %s: answered by the model (%s) but not by the implementation" % (k, x[:60])
+            y = ival[k]
+            if x == "err":
+                if y is not None:
+                    return "route %s: model err, implementation ok" % k
+            else:
+                if y is None:
+                    return "route %s: model %s, implementation err" % (k, x[:200])
+                if y[1] is None or not G.sval_eq(G.parse_val(x[3:]), y[1]):
+                    return "route %s: model %s, implementation %s" % (k, x[:200], i[k][:200])
+            STATS["cmp:route"] += 1
+        for k in ival:
+            if k not in m:
+                return "route %s: answered by the implementation but not by the model" % k
+        return None
+    if case.cmd == "tryfrom":
+        iref = {"txt": "val", "ttxt": "tab"}
+        for k, x in m.items():
+            y = i.get(k)
+            if y is None:
+                return "%s missing" % k
+            if y == "ok:=":
+                y = i.get(iref.get(k, k), y)
+            if x.startswith("err(") or y.startswith("err("):
+                # the kind of a failure AFTER serialization (re-parsing the text) is not modelled
+                xk = x if not x.startswith("err(de)") else "err"
+                if x.startswith("err(") != y.startswith("err(") or (xk != "err" and x != y):
+                    return "%s: model %s, implementation %s" % (k, x[:200], y[:200])
+            elif not tv_eq_ordered(G.parse_tv(x[3:]), G.parse_tv(y[3:])):
+                return "%s: model %s, implementation %s" % (k, x[:200], y[:200])
+            STATS["cmp:tryfrom"] += 1
+        return None
     return None
 
 
